@@ -14,7 +14,7 @@ LEAN = os.path.join(ROOT, "shape_mut_lean")
 GEN = os.path.join(LEAN, "GrinVerif", "Gen")
 FILES = [gp.PIPE, gp.BLOCK, gp.TXS, gp.UTXO, gp.TXH, gp.TPOOL, gp.POOL]
 MODS = ["GrinVerif.Props.XlateShape" + a + s for a in ("Chain", "Core", "Pool") for s in ("", "Pins")] + \
-       ["GrinVerif.Props.XlateShapeModel"]
+       ["GrinVerif.Props.XlateShapeModel", "GrinVerif.Props.XlateShapeModel2"]
 P, B, T, U, X, TP, PL = gp.PIPE, gp.BLOCK, gp.TXS, gp.UTXO, gp.TXH, gp.TPOOL, gp.POOL
 MUTS = [
  ("S01 process_block: `?` dropped on validate_block", P, "\tvalidate_block(b, ctx)?;\n", "\tlet _ = validate_block(b, ctx);\n"),
@@ -39,6 +39,8 @@ MUTS = [
  ("S16 validate_header: SKIP_POW guard negation removed (pow checks on the wrong branch)", P, "\tif !ctx.opts.contains(Options::SKIP_POW) {\n\t\t// Quick check of this header in isolation.", "\tif ctx.opts.contains(Options::SKIP_POW) {\n\t\t// Quick check of this header in isolation."),
  ("S17 process_block_header: `check_known(..).is_err()` early return condition negated", P, "\tif check_known(header, &head, ctx).is_err() {", "\tif check_known(header, &head, ctx).is_ok() {"),
  ("S18 validate_header: another argument (prev instead of header) in the weight bound", P, "let weight = TransactionBody::weight_by_iok(0, num_outputs, num_kernels);", "let weight = TransactionBody::weight_by_iok(0, num_kernels, num_outputs);"),
+ ("S19 validate_header: num_outputs computed from the kernel counter of prev (a `let` feeding the InvalidMMRSize / TooHeavy guards)", P, ".output_mmr_count()\n\t\t.saturating_sub(prev.output_mmr_count());", ".output_mmr_count()\n\t\t.saturating_sub(prev.kernel_mmr_count());"),
+ ("S20 validate_header: target difficulty computed with the operands swapped (a `let` under the SKIP_POW guard)", P, "let target_difficulty = header.total_difficulty() - prev.total_difficulty();", "let target_difficulty = prev.total_difficulty() - header.total_difficulty();"),
  # benign
  ("SB1 benign: comments and reformatting in validate_header", P, "\tif header.height != prev.height + 1 {\n\t\treturn Err(Error::InvalidBlockHeight);\n\t}", "\tif header.height != prev.height + 1\n\t{ // height\n\t\treturn Err( Error::InvalidBlockHeight );\n\n\t}"),
  ("SB2 benign: local `prev` renamed in validate_header", P, None, "validate_header"),
